@@ -279,6 +279,7 @@ func c13Judge(c *fw.Ctx, i int, mtu int, obus []ref.OBU, sizeOnLast bool) {
 	// (b) AV1Depacketizer
 	d := &codecs.AV1Depacketizer{}
 	var outStream []byte
+	var outs [][]byte
 	for k, pl := range payloads {
 		var out []byte
 		var err error
@@ -291,7 +292,10 @@ func c13Judge(c *fw.Ctx, i int, mtu int, obus []ref.OBU, sizeOnLast bool) {
 			c.Fail("C13/depacketizer/rejects-payloader-output", fmt.Sprintf("AV1Depacketizer rejects payload %d: %v", k, err), wit2())
 			return
 		}
-		outStream = append(outStream, out...)
+		outs = append(outs, out) // kept as returned; joined when the temporal unit is complete
+	}
+	for _, o := range outs {
+		outStream = append(outStream, o...)
 	}
 	if !bytes.Equal(outStream, expectSized) {
 		c.Fail("C13/depacketizer/stream-differs", "AV1Depacketizer does not reproduce the OBUs (with size fields)", wit2("got", fw.Trunc(fw.Hex(outStream), 400), "want", fw.Trunc(fw.Hex(expectSized), 400)))
